@@ -33,5 +33,8 @@ Emit == EmitOn => PrintT(<<"REPLAY", ToJson([d |-> d, path |-> path, bound |-> R
           must_short |-> SetToSeq(MustAppear(Cur, FALSE)), must_long |-> SetToSeq(MustAppear(Cur, TRUE)),
           not_short |-> SetToSeq(MustNotAppear(Cur, FALSE)), not_long |-> SetToSeq(MustNotAppear(Cur, TRUE)),
           nl_short |-> SetToSeq(NotListed(Cur, FALSE)), nl_long |-> SetToSeq(NotListed(Cur, TRUE)),
-          not_usage |-> SetToSeq(UsageMustNot(Cur))])>>)
+          not_usage |-> SetToSeq(UsageMustNot(Cur)),
+          \* the mirror of this level under the generated help subcommand (exists when the root has one and this level has children)
+          mirror |-> Build(Defs[d].cmd, NoInherit).autoHelpSub /\ Cur.subs # <<>>,
+          mirror_must |-> SetToSeq(MirrorMust(Cur)), mirror_not |-> SetToSeq(MirrorNot(Cur))])>>)
 =============================================================================
